@@ -1,6 +1,6 @@
 (* Properties/C02.v — The loader is total.
    Model: Xml/Lexer.v, Xml/Parser.v.  Proofs: Xml/LexerProofs.v, Xml/ParserProofs.v. *)
-From AV Require Import Base.Bytes Base.Outcome Xml.Lexer Xml.LexerProofs.
+From AV Require Import Base.Bytes Base.Outcome Hash.HashModel Spec.SpecOps Xml.Lexer Xml.Parser Xml.LexerProofs Xml.TablesOk Xml.ParserProofs.
 
 (* [U] the attribute scan of the xml header never panics (fix d17bf18) *)
 Theorem C02_header_attrs_total :
@@ -28,3 +28,37 @@ Theorem C02_lexer_total : forall (bs : list N) (st : lstate), lex_reach bs st ->
   | Fuel => False
   end.
 Proof. exact lexer_total_full. Qed.
+
+(* Hypotheses of the loader theorems (ParserProofs.loader_hyps), all but the last as BOOLEAN checkers:
+     tables_ok T            Xml/TablesOk.v: slices in range, entries present, group nesting below SpecOps.FUEL, a
+                            Characters type has no sub-elements, element definitions and the root exist
+                            (tables_ok RT = true for the regenerated tables: Xml/TablesOkReal.v);
+     nametab_ok t           the perfect-hash tables are as long as their moduli, moduli non-zero;
+     attr_names_ok tab_at   the three header attribute names are in the attribute table;
+     the validator of every pattern the tables mention returns a value on byte input (C19_n, part 3).
+   Nothing is assumed about float_parse (the model of str::parse::<f64>). *)
+
+(* [U] C02_load_total: for every byte string and both modes, `load` (fuel |bs|+1 for the recursion and for every
+   loop) is neither a panic nor out of fuel: it returns a tree or an error value. *)
+Theorem C02_load_total :
+  forall (strict : bool) (T : tables) (tab_el tab_at tab_en : nametab) (check_fn : N -> list N -> res bool)
+         (float_parse : list N -> option N) (bs : list N),
+  loader_hyps T tab_el tab_at tab_en check_fn -> bytes_ok bs = true ->
+  exists r, load strict T tab_el tab_at tab_en check_fn float_parse bs = Val r.
+Proof. exact load_total_closed. Qed.
+
+(* [U] C02_line_bounds: every lexer error, parser error and warning names a line in [1, 1 + number of LF bytes]. *)
+Theorem C02_line_bounds :
+  forall (strict : bool) (T : tables) (tab_el tab_at tab_en : nametab) (check_fn : N -> list N -> res bool)
+         (float_parse : list N -> option N) (bs : list N),
+  loader_hyps T tab_el tab_at tab_en check_fn -> bytes_ok bs = true ->
+  forall r, load strict T tab_el tab_at tab_en check_fn float_parse bs = Val r ->
+  let in_range := fun e => match e with
+                           | ErrLex line _ => (1 <= line <= 1 + count_lines bs)%N
+                           | ErrParse line _ _ _ => (1 <= line <= 1 + count_lines bs)%N
+                           end in
+  match r with
+  | Ret _ st => Forall in_range (p_warnings st)
+  | Raise e st => in_range e /\ Forall in_range (p_warnings st)
+  end.
+Proof. exact load_line_bounds. Qed.
